@@ -846,6 +846,9 @@ def build(scn: Scn, rt: Runtime, cls_name=None, picklable=False):
         lbase = (type("EqBase" + suffix, (), {"__eq__": lambda a, b: hasattr(b, "_verif_eq"), "__hash__": lambda a: 7,
                                                "_verif_eq": True}),)
         lclasses.append(lbase[0])
+    if scn.listener_kind == "singleton":   # stateless listeners that survive copying as the very same object
+        lbase = (type("SingletonBase" + suffix, (), {"__deepcopy__": lambda a, memo: a, "__copy__": lambda a: a}),)
+        lclasses.append(lbase[0])
     if scn.listener_kind == "falsy":       # listeners that are falsy objects (empty containers)
         lbase = (type("FalsyBase" + suffix, (), {"__len__": lambda a: 0}),)
         lclasses.append(lbase[0])
